@@ -83,3 +83,19 @@ Proof. split; vm_compute; reflexivity. Qed.
 
 Example C01_classes_example : replies Ws (handle ex_reg ex_h Ws ex_cfg b#"{""jsonrpc"":""2.0"",""method"":""echo"",""id"":1.5}") = [] /\ replies Http (handle ex_reg ex_h Http ex_cfg b#"{""jsonrpc"":""2.0"",""method"":""echo"",""id"":1,""id"":2}") = [] /\ replies Ws (handle ex_reg ex_h Ws ex_cfg b#"{""id"":""x"",""method"":1}") = [b#"{""jsonrpc"":""2.0"",""id"":""x"",""error"":{""code"":-32600,""message"":""Invalid request""}}"] /\ replies Http (handle ex_reg ex_h Http ex_cfg b#"{]") = [b#"{""jsonrpc"":""2.0"",""id"":null,""error"":{""code"":-32700,""message"":""Parse error""}}"] /\ replies Ws (handle ex_reg ex_h Ws ex_cfg b#"{""jsonrpc"":""2.0"",""method"":""boom"",""id"":9}") = [b#"{""jsonrpc"":""2.0"",""id"":9,""error"":{""code"":-32603,""message"":""Internal error""}}"] /\ replies Ws (handle ex_reg ex_h Ws ex_cfg b#"{""jsonrpc"":""2.0"",""method"":""nope"",""id"":9}") = [b#"{""jsonrpc"":""2.0"",""id"":9,""error"":{""code"":-32601,""message"":""Method not found""}}"].
 Proof. repeat split; vm_compute; reflexivity. Qed.
+
+(* ---- end to end with the client's serialisers (Proofs/EndToEnd.v, via the C15 round trips) ---- *)
+From JV Require Import Base.Utf8 Proofs.WireFacts Proofs.EndToEnd.
+
+Theorem C01_client_request_is_a_call : forall r : request,
+  wf_id (rq_id r) -> utf8_valid (rq_method r) = true ->
+  match rq_params r with Some p => raw_payload p /\ nonnull p | None => True end ->
+  classify (ser_request r) = Call r.
+Proof. exact client_request_is_a_call. Qed.
+Print Assumptions C01_client_request_is_a_call.
+
+Theorem C01_client_notification_is_a_notification : forall (me : bytes) (p : option bytes),
+  utf8_valid me = true -> match p with Some p' => raw_payload p' /\ nonnull p' | None => True end ->
+  classify (ser_notification me p) = Notif.
+Proof. exact client_notification_is_a_notification. Qed.
+Print Assumptions C01_client_notification_is_a_notification.
